@@ -114,7 +114,7 @@ def find_wake_fn(facts):
         if f.crate != EY:
             continue
         b = f.built
-        if b and b.calls(r"^std::task::Waker::wake$"):
+        if b and (b.calls(r"^std::task::Waker::wake$") or any(a.get("k") == "const" and str(a.get("fn") or "") == "std::task::Waker::wake" for _, t in b.calls() for a in t["args"])):
             r = root_fn(facts, f)
             if r not in out:
                 out.append(r)
